@@ -219,10 +219,16 @@ func (a *authWorld) project() M {
 	}
 	st["rcpt"] = rc
 	cm := []interface{}{}
+	commitok := true
 	for _, r := range c.App.XIBCKeeper.PacketKeeper.GetAllPacketCommitments(ctx) {
 		cm = append(cm, int64(r.Sequence))
+		// the stored commitment is the hash of the packet bytes the chain emitted for that sequence
+		if a.W.SentHash[fmt.Sprintf("%x", r.Data)] != a.W.key(r.SrcChain, r.DstChain, r.Sequence) { // SentHash: sha256 of the emitted bytes -> path
+			commitok = false
+		}
 	}
 	st["commits"] = cm
+	st["commitok"] = commitok
 	ar := []interface{}{}
 	for _, pa := range c.App.XIBCKeeper.PacketKeeper.GetAllPacketAcks(ctx) {
 		k := fmt.Sprintf("%s/A/%d", pa.SrcChain, pa.Sequence)
